@@ -74,6 +74,9 @@ type C02Plan struct {
 	Width     int            `json:"width,omitempty"`
 	Items     []GffItem      `json:"items,omitempty"`
 	Delivery  simio.Delivery `json:"delivery"`
+	// WriteFault > 0: additionally write to a medium that fails after
+	// (WriteFault-1) mod len(text) bytes.
+	WriteFault int `json:"write_fault,omitempty"`
 }
 
 const fieldChars = "abcXYZ019_.:|>@+#;=-/ *~!\"'"
@@ -352,6 +355,12 @@ func genC02(r *simrt.RNG) *Case {
 		pl = genGff(r)
 	}
 	pl.Delivery = simio.PickDelivery(r)
+	if r.Intn(3) == 0 {
+		pl.WriteFault = 1 + r.Intn(1<<20)
+		if r.Bool() {
+			pl.WriteFault = 1 + r.Intn(200)
+		}
+	}
 	return &Case{Prop: "C02", Kind: pl.Format, Plan: marshalPlan(pl)}
 }
 
@@ -359,7 +368,10 @@ func genC02(r *simrt.RNG) *Case {
 // text, the reference descriptions of what should be read back and the number
 // of sink writes.
 func writeFeats(pl *C02Plan) (text []byte, want []string, writes int, v *simrt.Violation) {
-	sink := &simio.Sink{}
+	return writeFeatsTo(pl, &simio.Sink{})
+}
+
+func writeFeatsTo(pl *C02Plan, sink *simio.Sink) (text []byte, want []string, writes int, v *simrt.Violation) {
 	site := "c02-" + pl.Format
 	var w featio.Writer
 	if pl.Format == "bed" {
@@ -371,11 +383,17 @@ func writeFeats(pl *C02Plan) (text []byte, want []string, writes int, v *simrt.V
 		for i, b := range pl.Beds {
 			before := len(sink.Buf)
 			n, err := w.Write(b.build(pl.BedType))
-			if err != nil {
+			if err != nil && !sink.Failed {
 				return nil, nil, 0, viol(site+"-write-error", "record %d: Write failed on a healthy sink: %v", i, err)
 			}
 			if n != len(sink.Buf)-before {
+				if sink.Failed {
+					return nil, nil, 0, viol(site+"-bytecount-on-failure", "record %d: Write returned n=%d but %d bytes were emitted (the sink failed after %d bytes in total; Write returned %v)", i, n, len(sink.Buf)-before, sink.FailAt, err)
+				}
 				return nil, nil, 0, viol(site+"-bytecount", "record %d: Write returned n=%d but %d bytes were emitted", i, n, len(sink.Buf)-before)
+			}
+			if sink.Failed {
+				return sink.Buf, want, len(sink.Calls), nil
 			}
 			cols, _ := bedColumns(b.build(pl.BedType), pl.WriteType)
 			want = append(want, fmt.Sprintf("bed%d %q", pl.WriteType, cols))
@@ -388,12 +406,18 @@ func writeFeats(pl *C02Plan) (text []byte, want []string, writes int, v *simrt.V
 		before := len(sink.Buf)
 		f := it.build()
 		n, err := w.Write(f)
-		if err != nil {
+		if err != nil && !sink.Failed {
 			return nil, nil, 0, viol(site+"-write-error", "item %d (%s): Write failed on a healthy sink: %v", i, it.Kind, err)
 		}
 		emitted := sink.Buf[before:]
 		if n != len(emitted) {
+			if sink.Failed {
+				return nil, nil, 0, viol(site+"-bytecount-on-failure", "item %d (%s): Write returned n=%d but %d bytes were emitted (the sink failed after %d bytes in total; Write returned %v)", i, it.Kind, n, len(emitted), sink.FailAt, err)
+			}
 			return nil, nil, 0, viol(site+"-bytecount", "item %d (%s): Write returned n=%d but %d bytes were emitted", i, it.Kind, n, len(emitted))
+		}
+		if sink.Failed {
+			return sink.Buf, want, len(sink.Calls), nil
 		}
 		// the text carries 1-based inclusive coordinates
 		switch it.Kind {
@@ -510,6 +534,20 @@ func runC02(t *testing.T, c *Case, o RunOpts) *Result {
 	res.Steps += src.Reads
 	if v == nil {
 		v = compareFeats("c02-"+pl.Format, want, got)
+	}
+	if v == nil && pl.WriteFault > 0 && len(text) > 0 {
+		hdr := 0
+		if pl.Format == "gff" && pl.Header {
+			hdr = len("##gff-version 2\n") // written by NewWriter, not by a Write call
+		}
+		if len(text) > hdr {
+			sink := &simio.Sink{Faulty: true, FailAt: hdr + (pl.WriteFault-1)%(len(text)-hdr)}
+			res.Fired = append(res.Fired, simrt.IORecord{Kind: "write-fails-at-byte"})
+			if pv := guard(func() { _, _, _, v = writeFeatsTo(&pl, sink) }); pv != nil {
+				v = pv
+			}
+			res.Steps += len(sink.Calls)
+		}
 	}
 	res.Viol = v
 	return res
